@@ -61,7 +61,7 @@ try:
     os.remove(xml)
     res = {}
     for c in checks:
-        e2 = dict(env, PYTHONPATH=wt)
+        e2 = dict(env, PYTHONPATH=wt, VERIF_EVIDENCE_DIR=os.path.join(wt, '.verif-evidence'))
         rc, o = sh(['/verif/check', c, '--tier', 'quick'], cwd='/verif', env=e2, timeout=3000)
         viol = [l for l in o.splitlines() if l.startswith('VIOLATION')]
         res[c] = {'rc': rc, 'violations': len(viol), 'first': viol[0][:300] if viol else '',
